@@ -20,6 +20,9 @@ def run(c):
             s.update(mutate_after=True)   # the payload object is changed after signing, before the update is serialised
         if i % 6 == 2:
             s.update(issuer="ca")           # signer certificate issued by a CA: issuer differs from subject
+        if i % 6 == 4:
+            # signer certificate that is itself signed with another algorithm (the update is a SHA-256 signature whatever the certificate's own is)
+            s.update(issuer=("sig384", "sig512", "sigpss")[(i // 6) % 3])
         if i % 3 == 1:
             s.update(after_error=True)      # an earlier update failed in the signer
         if i % 23 == 1:
